@@ -501,6 +501,23 @@ def i1(ctx):
                     ok = a is not None and a.k == 'elem' and a.a[0].k == 'param' and a.a[0].a[0] == 'iterable'
         obs.append(Ob('I1', 'Deque.%s/each-%s' % (meth, callee), ok, 'Deque.%s does not %s every element of the iterable'
                       % (meth, callee), f.loc()))
+    # Index.__eq__: lengths are compared before any content (zip truncates: a common prefix would compare equal)
+    f = ctx.method('Index', '__eq__')
+    ok, n = True, 0
+    for p in ctx.paths(f, 'plain'):
+        if p.kind != 'return':
+            continue
+        n += 1
+        lt = [e for e in p.trace if e.kind == 'TEST' and e.d['val'].k == 'cmp' and e.d['val'].a[0] in (('NotEq',), ('Eq',))
+              and all(any(y.k == 'term' and y.a[0] == 'len' or (y.k == 'ret' and any(q.endswith('__len__') for q in y.a[1]))
+                          for y in values_in(x)) for x in e.d['val'].a[1])]
+        content = [e for e in p.trace if (e.kind == 'CALL' and e.d['name'] in ('__getitem__', 'get', 'items', '__iter__'))
+                   or (e.kind == 'MCALL' and e.d['name'] in ('items', 'get', 'keys', 'values'))]
+        if content and (not lt or lt[0].seq > content[0].seq):
+            ok = False
+    obs.append(Ob('I1', 'Index.__eq__/length-first', ok and n > 0,
+                  'Index.__eq__ looks at items before it has compared the lengths: pairing with zip() stops at the '
+                  'shorter side, so an index equals any ordered mapping it is a prefix of', f.loc()))
     for meth, func in (('__getitem__', '__getitem__'), ('__delitem__', '__delitem__')):
         f = ctx.method('Deque', meth)
         ok = False
